@@ -129,6 +129,11 @@ func parseExclusiveRange(e *Ecosystem, rangeStr string) ([]*constraint, error) {
 	startStr := strings.TrimSpace(parts[0])
 	endStr := strings.TrimSpace(parts[1])
 
+	// (1.0,) and (,1.0) are unbounded on one side
+	if (startStr == "") != (endStr == "") {
+		return parseMixedRange(e, rangeStr)
+	}
+
 	startVersion, err := e.NewVersion(startStr)
 	if err != nil {
 		return nil, fmt.Errorf("invalid start version in exclusive range: %w", err)
